@@ -208,6 +208,10 @@ Definition c06_step_ok (L : limits) (prev : option obs) (e : ev) (o : obs) (l l'
   under (max_in L) (count_dir true l') && under (max_out L) (count_dir false l') &&
   (* the counted sets never exceed the maxima either *)
   under (max_in L) (N.of_nat (length (o_ins o))) && under (max_out L) (N.of_nat (length (o_outs o))) &&
+  (* no leaked capacity (C06_counted_are_live on the implementation's own dump): every counted id
+     is an established connection of the ledger, of the right direction *)
+  forallb (fun c => match lookup c l' with Some (_, lst) => lst | None => false end) (o_ins o) &&
+  forallb (fun c => match lookup c l' with Some (_, lst) => negb lst | None => false end) (o_outs o) &&
   match e with
   | TrEstablished p c t lst f =>
       (* capacity really is available: a peer without connection is accepted below the limit *)
